@@ -53,6 +53,14 @@ class Run:
     def note(self, text):
         self.notes.append(text)
 
+    def undecided(self, rule, key, detail, loc=None):
+        """The rule could not decide this instance and nothing in the code contradicts it (e.g. a subscript site that
+        did not exist when the tables were confirmed and has no bound the interval analysis can find).  Not a
+        violation: the check ends as analysis-broken (exit 2) unless a real violation is reported as well."""
+        if not hasattr(self, "undecided_list"):
+            self.undecided_list = []
+        self.undecided_list.append({"rule": rule, "key": key, "detail": detail.replace("\n", " "), "loc": loc})
+
     def floor(self, what, count, minimum):
         """Anti-vacuity: a rule that matches fewer sites than confirmed by hand
         is a broken analysis, not a pass."""
@@ -110,6 +118,13 @@ class Run:
             print("  note: " + n)
         for l in out_lines:
             print(l)
+        und = getattr(self, "undecided_list", [])
+        if und and not unlisted:
+            for u in und[:8]:
+                print("UNDECIDED %s %s: %s" % (u["rule"], u["loc"] or "", u["detail"]))
+            print("ANALYSIS-BROKEN property=%s: %d instance(s) could not be decided on this tree (new code shape: the instance "
+                  "tables have to be re-confirmed); no violation was found" % (self.pid, len(und)))
+            return 2
         return 1 if unlisted else 0
 
     def write_evidence(self, n_unlisted, n_known):
